@@ -20,12 +20,12 @@ def D(kind, s, c, n):
 
 
 def Gr(act, g, e):
-    return {"act": act, "args": {"g": g, "e": e}}
+    return {"act": act, "args": {"g": g, "e": e, "ak": "basic"}}
 
 
 class C03(Pipeline):
     pid = "C03"
-    mc = [("Auth_mc", "Auth_mc", ("quick", "thorough"))]
+    mc = [("Auth_mc", "Auth_mc", ("quick",)), ("Auth_mc", "Auth_mc_full", ("thorough",))]
     gens = [Gen("AuthGen", "AuthGen_cover", "bfs", tiers=("quick",), timeout=170),
             Gen("AuthGen", "AuthGen_cover_big", "bfs", tiers=("thorough",), timeout=600)]
     driver_pkg = "drivers/auth"
@@ -45,6 +45,8 @@ class C03(Pipeline):
         "two-message transactions (action Deliver2): one really signed transaction of A carrying an honest message of A (creator = named = A) and a message in B's name (creator = named = B, Metadata.Signers = {A}), in both orders, the second position ranging over one kind per module (quick) / every plain kind (thorough), under the same fee-grant relations; the world holds the objects of both kinds",
         "ownership that was handed over (kinds ...Handed): the factory denoms factory/<A>/sh and factory/<B>/sh were created (5 minted) by A resp. B, who then gave the admin role to the other principal with MsgChangeAdmin (set-up through the tokenfactory msg server), and the new admin minted 5 more; the named principal of these kinds is the CURRENT admin, whose denom name carries the other principal. Factory denoms (admin, bank metadata, supply) and both bridge mapping records of a denom (denom -> erc20, erc20 -> denom) are attributed to the denom's current admin. No other Paloma object has a transferable owner (scheduler jobs, user smart contracts, light-node licences, pool transfers and validator records have no hand-over message)",
         "key collisions (action DeliverK): for every kind that creates or upserts an object under a sender-chosen key in a namespace shared by all principals (scheduler job id; factory sub-denom; the ERC-20 address a factory denom is bound to; light-node client address; external-chain address of a validator; validator address of a relayer fee record; base denom of bank metadata) the key is a variant of the key of an object the named principal already owns: equal, letter case changed, leading / trailing blank, './' segment, 'x/../' segment ('../<owner>/sa' for a sub-denom); the world holds that object for A and for B (jobs job-1/job-2, denoms factory/<p>/sa - bound to an ERC-20 of the admin's choosing for the ERC-20 kind, with an unbound factory/<p>/su to bind -, licence records, registered external addresses, relayer fee records); message ids / contract ids are assigned by the chain and have no sender-chosen key",
+        "fee allowances of every kind x/feegrant knows are granted by really signed MsgGrantAllowance: basic, periodic (period 1 h, 1000 ugrain), allowed-msg (allowed message /cosmos.bank.v1beta1.MsgSend) wrapping a basic or a periodic one, each without expiration, with an expiration one hour ahead, and expiring between the storing block and the next block; under the non-basic kinds the signer acts in the grantor's name with one message kind per module (the decorator does not look at the kind of the message); the model does not restrict an allowed-msg allowance to its allowed messages (any stored unexpired allowance authorises, as the decorator is written)",
+        "perturbation Reimport: after a successful delivery of A in its own name (every kind; no allowances stored) the whole application state is exported with app.ExportAppStateAndValidators (ExportGenesis of every module, not for zero height) and imported into a fresh application on a fresh database (InitChain = InitGenesis of every module, exported validators and consensus parameters, initial height = exported height), one empty block is delivered, and the projections of A, B and Gov before the export and after that block are compared: Reimport is defined as stuttering on all attributed state",
         "nested execution paths that bypass the ante chain by design (x/authz MsgExec, x/gov proposals submitted by others, wasm-dispatched messages) authorise through their own grant / vote / contract rules and are not enumerated, except governance execution itself",
         "MsgSubmitBadSignatureEvidence carrying the named validator's own external-chain signature over a batch that never existed jails that validator: treated like a batch confirmation (the named validator's own signature over the exact item) - the monitors allow this write; the variant signed with the creator's own key and the legacy Sender field naming somebody else must leave the named principal untouched",
     ]
@@ -108,6 +110,12 @@ class C03(Pipeline):
         self._two = {"transactions": len(d2), "ok": d2ok, "fail": d2fail, "second_kinds": sorted({e["args"]["k2"] for e in d2})}
         if d2ok < 5 or len(self._two["second_kinds"]) < 8:
             raise vk.Broken("vacuous drive: two-message transactions: %s" % self._two)
+        ri = [e for e in events if e["act"] == "Reimport"]
+        aks = sorted({e["args"]["ak"] + ("!" if e["act"] == "GrantExp" else "") for e in events if e["act"] in ("Grant", "GrantExp") and e["res"] == "ok"})
+        self._reimport = {"round_trips": len(ri), "ok": sum(1 for e in ri if e["res"] == "ok"), "worlds": sorted({e["args"]["kind"] for e in ri}),
+                          "allowance_kinds_granted": aks}
+        if self._reimport["ok"] < 20 or len(aks) < 12:
+            raise vk.Broken("vacuous drive: reimport / allowance kinds: %s" % {k: (v if k != "worlds" else len(v)) for k, v in self._reimport.items()})
         dk = [e for e in events if e["act"] == "DeliverK"]
         self._keyed = {"deliveries": len(dk), "ok": sum(1 for e in dk if e["res"] == "ok"), "fail": sum(1 for e in dk if e["res"] != "ok"),
                        "kinds": sorted({e["args"]["kind"] for e in dk}), "variants": sorted({e["args"]["v"] for e in dk}),
@@ -133,7 +141,8 @@ class C03(Pipeline):
         ev = getattr(self, "_events", [])
         reg = next((e for e in ev if e["act"] == "Registry"), None)
         out = {"per_kind_results": getattr(self, "_per_kind", {}), "coverage_gaps": getattr(self, "_gaps", []),
-               "two_message_transactions": getattr(self, "_two", {}), "key_collisions": getattr(self, "_keyed", {})}
+               "two_message_transactions": getattr(self, "_two", {}), "key_collisions": getattr(self, "_keyed", {}),
+               "reimport_and_allowance_kinds": getattr(self, "_reimport", {})}
         if reg:
             urls = {t["url"] for t in reg["table"]}
             out["message_types"] = {"registered_by_paloma_modules": len(reg["reg"]), "served_by_router": len(reg["routed"]),
@@ -317,6 +326,26 @@ class C03(Pipeline):
             evs = copy.deepcopy(byh[h8[0]])
             evs[h8[1]]["obs"]["post"]["B"][13] += 9      # component jobs of B
             jobs["overwritten_colliding_object_noticed"] = (evs, lambda v: any(n == "C03.NoForeignWrite" for n, _, _ in v.monfail))
+        # 9. a genesis round trip after which B's recorded denoms differ -> NoForeignWrite
+        h9 = next(((hh, kk) for hh, ee in byh.items() for kk, e in enumerate(ee)
+                   if e["act"] == "Reimport" and e["res"] == "ok" and e["args"]["kind"] == "TfMintHanded"), None)
+        if h9 is None:
+            skipped.append("state_lost_in_reimport_noticed")
+        else:
+            evs = copy.deepcopy(byh[h9[0]])
+            evs[h9[1]]["obs"]["post"]["B"][15] += 9      # component denoms of B
+            jobs["state_lost_in_reimport_noticed"] = (evs, lambda v: any(n == "C03.NoForeignWrite" for n, _, _ in v.monfail))
+        # 10. a delivery on an expired periodic allowance reported as successful -> GrantNeeded
+        h10 = next(((hh, kk) for hh, ee in byh.items() for kk, e in enumerate(ee)
+                    if e["act"] == "Deliver" and kk >= 1 and ee[kk - 1]["act"] == "GrantExp" and ee[kk - 1]["args"]["ak"] == "periodic"
+                    and e["g"]["ba"] == 2), None)
+        if h10 is None:
+            skipped.append("forged_success_on_expired_periodic_noticed")
+        else:
+            evs = copy.deepcopy(byh[h10[0]])
+            k = h10[1]
+            evs[k]["res"], evs[k]["cs"], evs[k]["code"], evs[k]["cls"] = "ok", "", 0, "ok"
+            jobs["forged_success_on_expired_periodic_noticed"] = (evs, lambda v: any(n == "C03.GrantNeeded" for n, _, _ in v.monfail))
         if len(jobs) < 3:
             return {"ok": False, "why": "samples missing in the recorded trace: %s" % skipped}
         t0 = time.time()
